@@ -1710,7 +1710,7 @@ def super_stat_case(ctx, gspec, sspec, over, want_model=True):
 
 def run_super_stats(ctx):
     cases = list(SUPER_STAT_CORPUS)
-    for _ in range(ctx.scale(16, 150)):
+    for _ in range(ctx.scale(16, 100)):
         fam = str(ctx.rng.choice(SUPER_STAT_FAMILIES))
         gspec = gen_grid_family(ctx.rng, fam, nmax=6)
         sspec = gen_shape(ctx.rng)
@@ -1826,7 +1826,7 @@ SUPER_LIST_CORPUS = [
 
 def run_super_lists(ctx):
     cases = list(SUPER_LIST_CORPUS)
-    for _ in range(ctx.scale(10, 80)):
+    for _ in range(ctx.scale(10, 50)):
         fam = str(ctx.rng.choice(SUPER_STAT_FAMILIES))
         gspec = gen_grid_family(ctx.rng, fam, nmax=6)
         specs = [gen_shape(ctx.rng) for _ in range(int(ctx.rng.integers(1, 5)))]
@@ -1931,7 +1931,7 @@ def run(ctx):
                         'cos/sin/apothem constants are recomputed by the harness with the NumPy expressions of the maker closures',
                         'as_(polar)/as_(cartesian) round trips move a point by far less than 1e-7*scale']
     big = ctx.tier == 'thorough'
-    n = ctx.scale(300, 9000)
+    n = ctx.scale(300, 5000)          # round 4: every case also runs the polar path and the regsub probes; 9000 -> 5000 keeps thorough < 10 min
     cases = [(g, s, None, None) for g, s in DIRECTED]
     corners = corner_cases()
     for k, (mk, cls, spec) in enumerate(corners):
@@ -1978,7 +1978,7 @@ def run(ctx):
                 checks.append((len(lines), len(l), chk))
                 lines += l
     # the VLT pupil and its quadrants inside the model, on every grid family
-    for _ in range(ctx.scale(1, 4)):
+    for _ in range(ctx.scale(1, 3)):
         for kw in VLT_CONFIGS:
             for fam in FAMILIES:
                 if ctx.quick() and ctx.rng.random() < 0.8:
@@ -1994,7 +1994,7 @@ def run(ctx):
                 l, chk = run_recipe(ctx, name, kw, int(ctx.rng.integers(0, 2 ** 31)), fam, feat=[i, fine])
                 checks.append((len(lines), len(l), chk))
                 lines += l
-    for _ in range(ctx.scale(1, 4)):
+    for _ in range(ctx.scale(1, 2)):
         for name, kw in RECIPE_PUPILS:
             for fam in FAMILIES:
                 if ctx.quick() and ctx.rng.random() < 0.8:
